@@ -43,19 +43,21 @@ Definition final_ok (o : obs) (s : state) : bool :=
   (init_chunk c =? chunk0) && list_eqb wz_eqb (out s) yields && list_eqb pz_eqb (wdone s) works
   && pz_eqb (ndata s, start s) fin && all_doneb nw s.
 
+(* one recorded execution: observations + one (worker, action code, value) per turn of the executed schedule *)
+Definition tcase := (obs * list (Z * Z * Z))%type.
+Definition turn_worker (t : Z * Z * Z) : Z := fst (fst t).
+Definition turn_event (t : Z * Z * Z) : Z * Z := (snd (fst t), snd t).
+
 (* strict: one turn of the schedule = one atomic action; the action stream must agree too *)
-(* one recorded execution: observations, executed schedule (worker per turn), action stream (one per turn),
-   and the order of completed critical sections / result writes derived from the action stream *)
-Definition tcase := (obs * list Z * list (Z * Z) * list (Z * Z))%type.
-
 Definition chk_strict (t : tcase) : bool :=
-  let '(o, sched, events, _) := t in
+  let '(o, turns) := t in
   let '(c, _, _, _, _, _) := o in
-  let '(s, es) := run_events c (init c) sched in
-  list_eqb pz_eqb es events && final_ok o s.
+  let '(s, es) := run_events c (init c) (map turn_worker turns) in
+  list_eqb pz_eqb es (map turn_event turns) && final_ok o s.
 
-(* lock level: the real execution reduced to the order in which critical sections and result writes
-   completed; (w, 0) = worker w ran one critical section, (w, 1) = worker w wrote its pending slice *)
+(* lock level: the real execution reduced to the order in which critical sections (release actions, code 7)
+   and result writes (code 9) completed; (w, 0) = worker w ran one critical section, (w, 1) = worker w wrote
+   its pending slice *)
 Fixpoint cs_steps (fuel : nat) (c : cfg) (s : state) (w : nat) : state :=
   match fuel with
   | O => s
@@ -66,8 +68,14 @@ Definition macro_step (c : cfg) (s : state) (m : Z * Z) : state :=
   let w := Z.to_nat (fst m) in
   if snd m =? 0 then match pcs s w with PIdle => cs_steps 6 c s w | _ => s end
   else match pcs s w with PWork _ _ => step c s w | _ => s end.
+Fixpoint macro_of (turns : list (Z * Z * Z)) : list (Z * Z) :=
+  match turns with
+  | [] => []
+  | (w, code, _) :: r =>
+      if code =? 7 then (w, 0) :: macro_of r else if code =? 9 then (w, 1) :: macro_of r else macro_of r
+  end.
 
 Definition chk_macro (t : tcase) : bool :=
-  let '(o, _, _, msched) := t in
+  let '(o, turns) := t in
   let '(c, _, _, _, _, _) := o in
-  final_ok o (fold_left (macro_step c) msched (init c)).
+  final_ok o (fold_left (macro_step c) (macro_of turns) (init c)).
